@@ -1,0 +1,13 @@
+//go:build verif
+// +build verif
+
+package nsqd
+
+// VerifCrashPoint, when set, is called after every filesystem mutation of the disk queue
+var VerifCrashPoint func(point string)
+
+func verifCrashPoint(p string) {
+	if VerifCrashPoint != nil {
+		VerifCrashPoint(p)
+	}
+}
